@@ -303,6 +303,8 @@ def decision_fields_rendered_on_base(ctx, rule):
     for st in walk_no_nested(sa):
         if isinstance(st, ast.Assign) and isinstance(st.value, ast.Subscript) and isinstance(st.value.value, ast.Name) and st.value.value.id in side_diffs:
             elems |= {t.id for t in st.targets if isinstance(t, ast.Name)}
+        if isinstance(st, ast.For) and any(isinstance(x, ast.Name) and x.id in side_diffs for x in ast.walk(st.iter)):
+            elems |= {x.id for x in ast.walk(st.target) if isinstance(x, ast.Name)}
     fields = {}
     for c in calls_in(sa, nested=False):
         if not (isinstance(c.func, ast.Attribute) and dotted(c.func.value) == 'decisions'):
@@ -1630,6 +1632,14 @@ def base_is_never_the_working_tree(ctx, rule):
                      'base is set to None, the value gitfiles uses for the WORKING TREE (GitRefWorkingTree): changed_notebooks diffs HEAD against the working tree, but '
                      '_get_diff_entry_stream opens the base side from disk too -- `nbdiff a.ipynb b.ipynb c.ipynb` (what the shell makes of `nbdiff *.ipynb`) compares every notebook with '
                      'itself and prints nothing', st)
+    # guard-clause form: the base is given as the first element of a returned tuple
+    for st in walk_no_nested(fn):
+        if isinstance(st, ast.Return) and isinstance(st.value, ast.Tuple) and len(st.value.elts) == 3 and not (isinstance(st.value.elts[0], ast.Name) and st.value.elts[0].id == basevar):
+            k += 1
+            val = st.value.elts[0]
+            ok = not (isinstance(val, ast.Constant) and val.value is None and wt_is_none)
+            ctx.inst(rule, fid, repo.norm(st), ok, 'a revision' if ok else
+                     'the base is returned as None, the value gitfiles uses for the WORKING TREE (GitRefWorkingTree): every notebook would be compared with itself', st)
     if not k:
         raise AnalysisError('resolve_diff_args: no re-assignment of the base revision found')
 
@@ -2397,9 +2407,11 @@ def r11_12(ctx, rule):
         if isinstance(test, ast.BoolOp) and isinstance(test.op, ast.Or) and pol:
             return all(implies_existing(fn, v, True, defs, depth) for v in test.values)
         if isinstance(test, ast.BoolOp) and isinstance(test.op, ast.Or) and not pol:
-            return False
+            return any(implies_existing(fn, v, False, defs, depth) for v in test.values)        # all operands false: one of them suffices
         if isinstance(test, ast.BoolOp) and isinstance(test.op, ast.And) and pol:
             return any(implies_existing(fn, v, True, defs, depth) for v in test.values)
+        if isinstance(test, ast.BoolOp) and isinstance(test.op, ast.And) and not pol:
+            return all(implies_existing(fn, v, False, defs, depth) for v in test.values)        # some operand false: each must suffice
         # not all(e.op == ADDRANGE for e in ...)
         if isinstance(test, ast.Call) and dotted(test.func) == 'all' and not pol and test.args and isinstance(test.args[0], (ast.GeneratorExp, ast.ListComp)):
             elt = test.args[0].elt
@@ -2582,9 +2594,9 @@ def r15_11(ctx, rule):
             continue
         if isinstance(st, ast.If):
             # the "apply the last collection" block: stores are patch(...) results only
-            stores = [x for x in ast.walk(st) if isinstance(x, ast.Assign)]
             others = [x for b in (st.body, st.orelse) for y in b for x in ast.walk(y) if isinstance(x, ast.stmt) and not isinstance(x, (ast.Assign, ast.If, ast.Pass))]
-            if all(isinstance(a.value, ast.Call) and dotted(a.value.func) == 'patch' for a in stores) and not others:
+            calls_ = [x for x in ast.walk(st) if isinstance(x, ast.Call)]
+            if all(dotted(x.func) == 'patch' for x in calls_) and not others:
                 continue
             bad.append(st)
             continue
@@ -2877,6 +2889,10 @@ def r17_16(ctx, rule):
             seen.add(e.id)
             ds = defs.get(e.id, [])
             return bool(ds) and all(verbatim(v, seen) for v, k, st in ds)
+        if isinstance(e, ast.Name):
+            return True         # already visited
+        if isinstance(e, ast.Constant) and e.value is None:
+            return True         # "no filter": never reaches the call (a None command cannot be run)
         if isinstance(e, ast.Call):
             tg = [t for t in cg.resolve(e.func, fn) if t[0] == 'func']
             return bool(tg) and all(t[1].startswith('nbdime.vcs.git.filter_integration:') for t in tg)     # the config reader
